@@ -1,4 +1,4 @@
-import QuillModel.Backend.Ops
+import QuillModel.Backend.Fault
 import QuillModel.Drivers.Util
 /-!
 Correspondence driver for the backend model: replays the script executed by `harness/h2_backend.cpp` on
@@ -64,9 +64,26 @@ def parseOp : List String → Option Backend.Op
   | ["X"] => some .exit
   | w => (parseFOp w).map .front
 
-def exec (s : BSt) (w : List String) : BSt × String :=
+/-- w2_faults: `2,5e,7n` — throwing call numbers with their kind (e: empty what(), n: not a std::exception) -/
+def throwList (v : String) : List Nat × List (Nat × Nat) :=
+  (v.splitOn ",").foldl (fun acc x =>
+    let cs := x.toList
+    let (ds, kind) := match cs.getLast? with
+      | some 'e' => (cs.dropLast, 1)
+      | some 'n' => (cs.dropLast, 2)
+      | _ => (cs, 0)
+    match (String.ofList ds).toNat? with
+    | some k => (acc.1 ++ [k], if kind = 0 then acc.2 else acc.2 ++ [(k, kind)])
+    | none => acc) ([], [])
+
+/-- w2_faults: the fault machine (`Backend/Fault.lean`); `LU` / `DT` exist only at the top level of a script -/
+def exec (fc : FCfg) (s : BSt) (w : List String) : BSt × String :=
+  match w with
+  | ["LU", a, g, len] => applyOpF fc s (.logU (nat! a) (nat! g) (nat! len))
+  | ["DT", k] => applyOpF fc s (.armDecode (nat! k))
+  | _ =>
   match parseOp w with
-  | some op => applyOp s op
+  | some op => applyOpF fc s (.base op)
   | none => (s, "bad-op")
 
 structure Setup where
@@ -101,6 +118,7 @@ def runTrace : IO UInt32 := do
   let stdin ← IO.getStdin
   let lines ← Drv.readLines stdin
   let mut u : Setup := {}
+  let mut fc : FCfg := {}
   let mut st : Option BSt := none
   let mut mism := 0
   let mut total := 0
@@ -134,6 +152,9 @@ def runTrace : IO UInt32 := do
         | some ("keepUnreported", v) => u := { u with keepUnreported := v == "1" }
         | some ("flushInvalid", v) => u := { u with flushInvalid := v == "1" }
         | some ("replayCatch", v) => u := { u with replayCatch := v == "1" }
+        | some ("patInLoop", v) => fc := { fc with patInLoop := v == "1" }
+        | some ("readAborts", v) => fc := { fc with readAborts := v == "1" }
+        | some ("notifyAlways", v) => fc := { fc with notifyAlways := v == "1" }
         | _ => pure ()
     | "cfg" :: rest =>
       for x in rest ++ Drv.words obsS do
@@ -153,8 +174,9 @@ def runTrace : IO UInt32 := do
           match v.splitOn ":" with
           | [m, r] => k := { k with filtM := nat! m, filtR := nat! r }
           | _ => pure ()
-        | some ("wthrow", v) => k := { k with wthrow := natList v }
-        | some ("fthrow", v) => k := { k with fthrow := natList v }
+        | some ("wthrow", v) => k := { k with wthrow := (throwList v).1, wkind := (throwList v).2 }
+        | some ("fthrow", v) => k := { k with fthrow := (throwList v).1, fkind := (throwList v).2 }
+        | some ("pat", v) => k := { k with patFails := v == "bad" }
         | _ => pure ()
       u := { u with sinks := u.sinks ++ [k] }
     | "logger" :: g :: rest =>
@@ -184,7 +206,7 @@ def runTrace : IO UInt32 := do
       match st with
       | none => IO.println s!"NOT-STARTED line {lineNo}: {line}"; mism := mism + 1
       | some s =>
-        let (s1, res) := exec { s with out := [] } w
+        let (s1, res) := exec fc { s with out := [] } w
         let (s2, evs) := takeEvents s1
         let mobs := if evs.isEmpty then res else s!"{res} | {evs}"
         total := total + 1
